@@ -57,6 +57,16 @@ func regressionCases() map[string]caseT {
 			mkStep(0, "valid", &ua.BrowseRequest{View: &ua.ViewDescription{ViewID: ua.NewTwoByteNodeID(0)}, NodesToBrowse: []*ua.BrowseDescription{{NodeID: ua.NewNumericNodeID(nsTest, id.ObjectsFolder),
 				BrowseDirection: ua.BrowseDirectionBoth, ReferenceTypeID: ua.NewTwoByteNodeID(0), IncludeSubtypes: true, ResultMask: 63}}}),
 		}},
+		// 10^4 items of ONE node in one request: every item used to start its own initial
+		// update, each of which reported to all 10^4 items with the service lock held
+		"create-monitored-items-10k-one-node": {Conns: sess, Steps: []stepT{mkStep(0, "valid", func() *ua.CreateMonitoredItemsRequest {
+			r := &ua.CreateMonitoredItemsRequest{SubscriptionID: phSub}
+			for i := 0; i < 10000; i++ {
+				r.ItemsToCreate = append(r.ItemsToCreate, &ua.MonitoredItemCreateRequest{ItemToMonitor: rv(ua.NewStringNodeID(nsTest, "v0")), MonitoringMode: ua.MonitoringModeReporting,
+					RequestedParameters: &ua.MonitoringParameters{ClientHandle: uint32(i + 1), SamplingInterval: 100, Filter: ua.NewExtensionObject(nil), QueueSize: 1}})
+			}
+			return r
+		}())}},
 		"silent-connection":  {Conns: nosess, Steps: []stepT{{Kind: "storm", Storm: &stormT{N: 1, Stages: []string{"hold-silent"}, Hold: 2600}, Desc: "hold-silent"}}},
 		"reset-before-hello": {Conns: nosess, Steps: []stepT{{Kind: "storm", Storm: &stormT{N: 1, Stages: []string{"connect-rst"}}, Desc: "abort"}}},
 	}
